@@ -289,10 +289,10 @@ def checkPat : IPat → Ty → Scopes → St → TPat × Scopes × St
         | none => IDiag.ctorAmbiguous
         | some none => IDiag.ctorNotFound
         | some (some _) => IDiag.ctorArity
-      let v := (s.mark.diag d).fresh
+      let v := (s.diag d).fresh
       (.wild v.1, Γ, v.2.push (.eq v.1 ty))
     | some cty =>
-      let it := s.mark.inst cty
+      let it := s.inst cty
       let r := checkPatZip args (ctorParams it.1) Γ it.2
       (.constr r.1 (ctorRet it.1), r.2.1, r.2.2.push (.eq (ctorRet it.1) ty))
   | .tuple ps, ty, Γ, s =>
@@ -678,12 +678,12 @@ def go : IExpr → Option Ty → GEnv → Scopes → St → Res
   | .constr i info args, exp, G, Γ, s =>
     -- `infer_constructor_expr`
     match info with
-    | none => let e := errExpr (s.mark.diag .ctorAmbiguous); finish i exp true e.1 Γ e.2
-    | some none => let e := errExpr (s.mark.diag .ctorNotFound); finish i exp true e.1 Γ e.2
+    | none => let e := errExpr (s.diag .ctorAmbiguous); finish i exp true e.1 Γ e.2
+    | some none => let e := errExpr (s.diag .ctorNotFound); finish i exp true e.1 Γ e.2
     | some (some (cty, arity)) =>
-      if arity ≠ args.length then let e := errExpr (s.mark.diag .ctorArity); finish i exp true e.1 Γ e.2
+      if arity ≠ args.length then let e := errExpr (s.diag .ctorArity); finish i exp true e.1 Γ e.2
       else
-        let it := s.mark.inst cty
+        let it := s.inst cty
         let ps := ctorParams it.1
         let ret := ctorRet it.1
         match (if ps.isEmpty then goL args G Γ it.2 else goZip args ps G Γ it.2) with
